@@ -47,6 +47,8 @@ enum Msg {
     Arith(i64, i64),
     Pair,
     Bool,
+    /// a slash-separated number literal `a/b`: it is text, not a division, wherever it is reported
+    Slash(i64, i64),
 }
 
 impl Msg {
@@ -59,6 +61,7 @@ impl Msg {
             Msg::Arith(k, d) => format!("${} * {} + {}", var, k, d),
             Msg::Pair => format!("${} (${} + 1)", var, var),
             Msg::Bool => format!("${} > 1", var),
+            Msg::Slash(a, b) => format!("{}/{}", a, b),
         }
     }
     /// text delivered by @debug / @warn
@@ -70,6 +73,7 @@ impl Msg {
             Msg::Arith(k, d) => (v * k + d).to_string(),
             Msg::Pair => format!("{} {}", v, v + 1),
             Msg::Bool => (v > 1).to_string(),
+            Msg::Slash(a, b) => format!("{}/{}", a, b),
         }
     }
     /// text reported by @error (= inspect)
@@ -98,11 +102,15 @@ enum Body {
     /// `@include c<k> { body }` – content block run `times` times in the caller's scope
     Content { k: usize, body: Vec<Body> },
     Error { msg: Msg },
+    /// `@include meta.load-css("lc", $with: (k: 1))`: grass warns that $with is unsupported – a
+    /// warning that does not come from @warn; with `quiet` it must stay silent too
+    LoadCss,
 }
 
 impl<'a, 'b> G<'a, 'b> {
     fn msg(&mut self) -> Msg {
-        match self.c.pick(9) {
+        match self.c.pick(10) {
+            9 => Msg::Slash(self.c.range(1, 12), self.c.range(2, 9)),
             0 => Msg::Lit(self.c.of(&["hello", "a b", "é", "x:y", "50%", "it's"]).to_string()),
             1 => Msg::Var,
             2 => Msg::Interp(self.c.of(&["i=", "step ", "", "n-"]).to_string()),
@@ -142,6 +150,7 @@ impl<'a, 'b> G<'a, 'b> {
                 9 if !in_callable => Body::Call { k: self.c.pick(2), d: self.c.range(0, 2) },
                 10 if !in_callable => Body::Content { k: self.c.pick(2), body: self.body(depth + 1, true, allow_rule) },
                 11 if depth == 0 && !in_callable && self.c.chance(1, 4) => Body::Error { msg: self.msg() },
+                11 if depth == 0 && !in_callable => Body::LoadCss,
                 12 if !in_callable => Body::Include { k: self.c.pick(2), d: self.c.range(0, 2) },
                 13 if !in_callable => Body::Call { k: self.c.pick(2), d: self.c.range(0, 2) },
                 14 if !in_callable => Body::Content { k: self.c.pick(2), body: self.body(depth + 1, true, allow_rule) },
@@ -165,6 +174,7 @@ struct Helpers {
 struct Printer {
     files: Vec<File>,
     cur: usize,
+    uses_load_css: bool,
     /// where each Log body node of a *definition* was printed: (node address) -> (file, line)
     expected: Vec<Log>,
     error: Option<String>,
@@ -194,6 +204,7 @@ enum Printed {
     Call { k: usize, d: i64, var: String },
     Content { k: usize, body: Vec<Printed> },
     Error { msg: Msg, var: String },
+    LoadCss { file: String, line: usize },
 }
 
 fn print_body(p: &mut Printer, body: &[Body], ind: usize, var: &str, in_rule: bool) -> Vec<Printed> {
@@ -275,12 +286,21 @@ fn print_body(p: &mut Printer, body: &[Body], ind: usize, var: &str, in_rule: bo
                 p.emit(ind, &format!("@error {};", msg.src(var)));
                 out.push(Printed::Error { msg: msg.clone(), var: var.to_string() });
             }
+            Body::LoadCss => {
+                let line = p.emit(ind, "@include meta.load-css(\"lc\", $with: (k: 1));");
+                p.uses_load_css = true;
+                out.push(Printed::LoadCss { file: p.files[p.cur].name.clone(), line });
+            }
         }
     }
     out
 }
 
+/// wildcard message of an expected Logger call
+pub const ANY_MESSAGE: &str = "\u{0}any message";
+
 struct Exec<'a> {
+    lc_name: String,
     mixins: &'a [Vec<Printed>],
     functions: &'a [Vec<Printed>],
     content_times: &'a [i64],
@@ -359,6 +379,12 @@ impl<'a> Exec<'a> {
                 Printed::Error { msg, var } => {
                     self.error = Some(msg.inspect(get(env, var)));
                 }
+                Printed::LoadCss { file, line } => {
+                    // the text of this warning is the implementation's own: any message is accepted
+                    self.out.push(Log { kind: "warn".into(), file: file.clone(), line: *line, message: ANY_MESSAGE.into() });
+                    // the loaded file runs one @debug at load time
+                    self.out.push(Log { kind: "debug".into(), file: self.lc_name.clone(), line: 1, message: "lc loaded".into() });
+                }
             }
         }
     }
@@ -385,8 +411,12 @@ pub fn gen_log_program(c: &mut Chooser) -> LogProgram {
     let entry_name = g.c.of(&["entry.scss", "src/main.scss"]).to_string();
     let dir = entry_name.rsplit_once('/').map(|(d, _)| format!("{}/", d)).unwrap_or_default();
     let part_name = format!("{}_part.scss", dir);
-    let mut p = Printer { files: vec![File { name: entry_name.clone(), lines: vec![] }, File { name: part_name.clone(), lines: vec![] }], cur: 0, expected: vec![], error: None, counter: 0 };
+    let mut p = Printer { files: vec![File { name: entry_name.clone(), lines: vec![] }, File { name: part_name.clone(), lines: vec![] }], cur: 0, uses_load_css: false, expected: vec![], error: None, counter: 0 };
     p.emit(0, "$v: 2;");
+    let uses_lc = main.iter().any(|b| matches!(b, Body::LoadCss));
+    if uses_lc {
+        p.emit(0, "@use \"sass:meta\";");
+    }
     // @use must precede every rule except variable declarations; @import is written after the definitions
     if with_import && import_kind != 0 {
         p.emit(0, if import_kind == 1 { "@use \"part\";" } else { "@use \"part\" as q;" });
@@ -424,7 +454,8 @@ pub fn gen_log_program(c: &mut Chooser) -> LogProgram {
     }
     let printed_main = print_body(&mut p, &main, 0, "v", false);
 
-    let mut ex = Exec { mixins: &pm, functions: &pf, content_times: &helpers.content_times, out: vec![], error: None, steps: 0 };
+    let lc_name = format!("{}_lc.scss", dir);
+    let mut ex = Exec { lc_name: lc_name.clone(), mixins: &pm, functions: &pf, content_times: &helpers.content_times, out: vec![], error: None, steps: 0 };
     if with_import {
         ex.run(&printed_import, &mut vec![("p".to_string(), 3)]);
     }
@@ -453,6 +484,7 @@ pub fn gen_log_program(c: &mut Chooser) -> LogProgram {
                     walk(body, f, "content")
                 }
                 Body::Error { .. } => add("error"),
+                Body::LoadCss => add("load-css-with-warning"),
             }
         }
     }
@@ -474,6 +506,9 @@ pub fn gen_log_program(c: &mut Chooser) -> LogProgram {
     let mut files: Vec<(String, String)> = vec![(entry_name, p.files[0].lines.join("\n") + "\n")];
     if with_import {
         files.push((part_name, p.files[1].lines.join("\n") + "\n"));
+    }
+    if uses_lc {
+        files.push((lc_name, "$k: 0 !default;\n@debug \"lc loaded\";\n.lc {\n  k: $k;\n}\n".to_string()));
     }
     LogProgram { files, expected: ex.out, error: ex.error, features: feats }
 }
